@@ -347,7 +347,30 @@ func (r *crudRun) newRow(t *crudTable) (reflect.Value, bool) {
 			parent := r.tabs[c.FK.Target]
 			if c.FK.Nullable {
 				useNull := len(parent.rows) == 0 || r.rng.Intn(3) == 0
-				setNullableID(f, useNull, parentID(parent, r.rng))
+				id := parentID(parent, r.rng)
+				if !useNull && (c.Unique || uniqueCols[c.Field]) {
+					// a unique nullable key: a parent no live row points to, else NULL
+					free := int64(0)
+					for _, pr := range parent.rows {
+						pid := parent.id(pr)
+						taken := false
+						for _, row := range t.rows {
+							if k, valid := nullableID(row.FieldByName(c.Field)); valid && k == pid {
+								taken = true
+							}
+						}
+						if !taken {
+							free = pid
+							break
+						}
+					}
+					if free == 0 {
+						useNull = true
+					} else {
+						id = free
+					}
+				}
+				setNullableID(f, useNull, id)
 				continue
 			}
 			if len(parent.rows) == 0 {
